@@ -963,6 +963,7 @@ fn resolve_names_stmt(ctx: &mut StaticsContext, symbol_table: &SymbolTable, stmt
             // the loop variable is visible in the body only
             let symbol_table = symbol_table.new_scope();
             resolve_names_pat(ctx, &symbol_table, pat, true);
+            record_pat_mutability(ctx, pat, false);
             for statement in statements.iter() {
                 resolve_names_stmt(ctx, &symbol_table, statement);
             }
@@ -1034,6 +1035,7 @@ fn resolve_names_expr(ctx: &mut StaticsContext, symbol_table: &SymbolTable, expr
             for arm in arms {
                 let symbol_table = symbol_table.new_scope();
                 resolve_names_pat(ctx, &symbol_table, &arm.pat, true);
+                record_pat_mutability(ctx, &arm.pat, false);
                 resolve_names_stmt(ctx, &symbol_table, &arm.stmt);
             }
         }
